@@ -801,6 +801,23 @@ struct InflateSession {
                 dangling = m.geti("dangling") != 0;
                 if (!build())
                         return;
+                if (avoiding(plan, "F1") && (mode == ISAL_GZIP || mode == ISAL_ZLIB)) {
+                        // steering around open finding F1 must use the header the decoder will actually see: transport damage can
+                        // change XLEN / FLG and with them the header's real length
+                        RefInflate hp;
+                        hp.init(mode == ISAL_GZIP ? RW_GZIP : RW_ZLIB);
+                        hp.feed(bytes.data(), bytes.size());
+                        if (mode == ISAL_GZIP)
+                                hdr_len = hp.gz.present ? hp.gz.len : bytes.size();
+                        else
+                                hdr_len = hp.zl.present ? hp.zl.len : std::min<size_t>(bytes.size(), 6);
+                }
+                if (getenv("SIM_DUMP_STREAM")) {
+                        fprintf(stderr, "stream (%zu bytes, hdr %zu, trailer %zu, mode %d):", bytes.size(), hdr_len, trl_len, mode);
+                        for (uint8_t b : bytes)
+                                fprintf(stderr, " %02x", b);
+                        fprintf(stderr, "\n");
+                }
                 if (!run_oneshot())
                         return;
                 run_stream();
